@@ -51,7 +51,8 @@ def _ctc(draw, names, feats):
 
     op = draw(st.sampled_from(logic.COMPARISON))
     if op in ("EQUALS", "NOT_EQUALS") and draw(st.integers(0, 3)) == 0:
-        lit = draw(st.text(alphabet="abcXYZ019 _-+", min_size=1, max_size=5))
+        lit = draw(st.one_of(st.text(alphabet="abcXYZ019 _-+", min_size=1, max_size=5),
+                             st.sampled_from(["buy // sell", "/* x */", "a /* b", "(x)", "a => b"])))
         cmp_ = [op, ref(), ["S", "'" + lit + "'"]]
     else:
         cmp_ = [op, arith(2), arith(2)]
